@@ -109,6 +109,24 @@ theorem clearRefs_ghost {w w' : World} (h : GhostEq w w') :
     GhostEq { w with remoteRefs := [] } { w' with remoteRefs := [] } :=
   ⟨h.store, h.writes, h.env, h.events, h.phases, h.phaseEvents, rfl, h.applied⟩
 
+theorem foldl_sync_ghost (rm : Remotes) (hrm : RespectsGhost rm) (mem : OSet) :
+    ∀ (phs : List PhaseSpec) {w w' : World}, GhostEq w w' →
+      GhostEq (phs.foldl (fun w ph => rm.sync mem ph w) w) (phs.foldl (fun w ph => rm.sync mem ph w) w') := by
+  intro phs
+  induction phs with
+  | nil => intro w w' h; exact h
+  | cons ph rest ih => intro w w' h; simp only [List.foldl_cons]; exact ih (hrm.sync mem ph h)
+
+/-- handing the pause to the remaining delegated phases (fix C09-a) does not read the ghost state. -/
+theorem afterPhases_ghost (rm : Remotes) (hrm : RespectsGhost rm) (mem : OSet) (pr : PhasesRes)
+    {w w' : World} (h : GhostEq w w') : GhostEq (afterPhases rm mem pr w) (afterPhases rm mem pr w') := by
+  unfold afterPhases
+  split
+  · split
+    · exact foldl_sync_ghost rm hrm mem _ h
+    · exact h
+  · exact h
+
 /-- `objectSetPhasesReconciler.Reconcile` + the tail of the pass does not read the ghost state. -/
 theorem activePhases_ghost (cfg : Cfg) (rm : Remotes) (hrm : RespectsGhost rm) (mem : OSet)
     {s s' : Sys} (h : GhostEqS s s') :
@@ -120,9 +138,13 @@ theorem activePhases_ghost (cfg : Cfg) (rm : Remotes) (hrm : RespectsGhost rm) (
     obtain ⟨w1, w1', r, e1, e2, h1⟩ :=
       (reconcilePhases_ghost cfg mem.owner (lookupPrev s' mem) (rm.recon mem) (fun ph _ _ hw => hrm.recon mem ph hw)
         mem.phases [] h.w).elim
-    simp only [e1, e2, h1.remoteRefs]
-    have h2 : GhostEqS { s with w := { w1 with remoteRefs := [] } } { s' with w := { w1' with remoteRefs := [] } } :=
-      withW_ghost h (clearRefs_ghost h1)
+    simp only [e1, e2]
+    have h1' := afterPhases_ghost rm hrm mem r h1
+    generalize afterPhases rm mem r w1 = w2 at h1' ⊢
+    generalize afterPhases rm mem r w1' = w2' at h1' ⊢
+    simp only [h1'.remoteRefs]
+    have h2 : GhostEqS { s with w := { w2 with remoteRefs := [] } } { s' with w := { w2' with remoteRefs := [] } } :=
+      withW_ghost h (clearRefs_ghost h1')
     cases r with
     | error e =>
       cases e with
